@@ -81,7 +81,9 @@ pub fn front(db: &RootDatabase, name: &str, source: &str, settings: &str) -> Res
             // e2e libfunc snippets call externs directly; a type-name mutant then asks for an
             // unsupported instantiation) are one root-cause class.
             if let Some(name) = specialization_subject(&p.msg) {
-                let named = rough_lex(source).iter().any(|t| t.kind == TokKind::Ident && source[t.start..t.end] == name);
+                // (The failing libfunc may be one the named extern is implemented with, e.g.
+                // `downcast` asking for `upcast`: naming any corelib extern directly is the class.)
+                let named = rough_lex(source).iter().any(|t| t.kind == TokKind::Ident && source[t.start..t.end] == name) || names_corelib_extern(source);
                 if named {
                     return Err(("specialization-panic:direct-use-of-corelib-extern".to_string(), format!("the source names the corelib extern `{name}` directly with unsupported generic arguments; no diagnostic, panic at {}: {}", p.loc, truncate(&p.msg, 300))));
                 }
